@@ -19,6 +19,7 @@ import (
 	"github.com/go-netty/go-netty/codec/format"
 	"github.com/go-netty/go-netty/codec/frame"
 	"github.com/go-netty/go-netty/transport"
+	"github.com/go-netty/go-netty/transport/tcp"
 	"github.com/go-netty/go-netty/utils/pool/pbuffer"
 	"github.com/go-netty/go-netty/utils/pool/pbytes"
 	"github.com/go-netty/go-netty/zz_verif/explore"
@@ -332,6 +333,38 @@ func codecScenario(name string, hs func() []netty.Handler, msg func(i int) any, 
 	}
 }
 
+// tcpOptionsScenario: what every Connect / Listen of the tcp transport does first with the caller's
+// options - two goroutines configured alike share one *tcp.Options (no sockets involved).
+func tcpOptionsScenario(bound int) *explore.Scenario {
+	return &explore.Scenario{
+		Name:  "tcp options/two goroutines resolving one shared *tcp.Options",
+		Bound: bound,
+		Cache: true,
+		Cfg:   vsched.Config{MaxSteps: 4000, Race: true},
+		Init:  func() any { return &struct{}{} },
+		Body: func(v any) {
+			shared := &tcp.Options{NoDelay: true, ReadBufferSize: 16} // durations left at zero
+			var ths []*vsched.Thread
+			for i := 0; i < 2; i++ {
+				i := i
+				ths = append(ths, vsched.Go(fmt.Sprintf("g%d:resolve", i), func() {
+					o, err := transport.ParseOptions(context.Background(), fmt.Sprintf("tcp://h:%d", i+1), tcp.WithOptions(shared))
+					if err != nil {
+						panic(err)
+					}
+					t := tcp.FromContext(o.Context, tcp.DefaultOption)
+					_, _, _, _ = t.Timeout, t.KeepAlivePeriod, t.KeepAlive, t.ReadBufferSize
+				}))
+			}
+			for _, t := range ths {
+				vsched.Join(t)
+			}
+		},
+		Outcome: func(x *vsched.Exec, v any) string { return fmt.Sprint(len(x.Races), x.Steps()) },
+		Check:   func(x *vsched.Exec, v any) []explore.Finding { return raceFindings(x) },
+	}
+}
+
 func poolScenario(bound int) *explore.Scenario {
 	return &explore.Scenario{
 		Name:  "pools/pbytes and pbuffer Get||Put from two goroutines",
@@ -362,7 +395,7 @@ func poolScenario(bound int) *explore.Scenario {
 func main() {
 	explore.Main(explore.Spec{
 		Property: "C12",
-		Rule:     "race-mode build (every field access of the library's own structs and every map operation is instrumented; sync, atomic, channel, context, pool and timer operations create exactly the happens-before edges of the Go memory model; the mock transport creates none): all pairs (and triples with Close) of {Write1, Writev, CtxWrite1, CtxWritev, ReadFrom, Channel.Write, Writer.Write, Trigger, Close, IsActive, Context} on one sync and one aq(2,B) channel with read loop and sender running, with a thread-safe transport and with a transport whose write side is plain memory (the shipped write-buffered wrapper); bootstrap {Async, Listener.Close, Shutdown, Connect, second Listen} pairs and triples; holder life cycles vs CloseAll; idle-handler timer callbacks vs messages and close; pbytes/pbuffer from two goroutines; all interleavings up to 1 (thorough 2) preemptions; a vector-clock (FastTrack-style) monitor reports conflicting accesses unordered by happens-before in any explored execution. distinct = distinct (race count, steps) observations",
+		Rule:     "race-mode build (every field access of the library's own structs and every map operation is instrumented; sync, atomic, channel, context, pool and timer operations create exactly the happens-before edges of the Go memory model; the mock transport creates none): all pairs (and triples with Close) of {Write1, Writev, CtxWrite1, CtxWritev, ReadFrom, Channel.Write, Writer.Write, Trigger, Close, IsActive, Context} on one sync and one aq(2,B) channel with read loop and sender running, with a thread-safe transport and with a transport whose write side is plain memory (the shipped write-buffered wrapper); bootstrap {Async, Listener.Close, Shutdown, Connect, second Listen} pairs and triples; holder life cycles vs CloseAll; idle-handler timer callbacks vs messages and close; pbytes/pbuffer from two goroutines; two goroutines resolving one shared *tcp.Options the way the tcp transport does; all interleavings up to 1 (thorough 2) preemptions; a vector-clock (FastTrack-style) monitor reports conflicting accesses unordered by happens-before in any explored execution. distinct = distinct (race count, steps) observations",
 		Assume:   []string{"pipeline mutation while events flow and attachment access are outside the contract (not exercised)", "only sequentially consistent executions are explored; detection is by happens-before, not by adjacency", "vector-clock edges were cross-checked against go test -race on the seeded races"},
 		Build: func(tier string) []*explore.Scenario {
 			b := 1
@@ -444,7 +477,7 @@ func main() {
 					}
 					c.ReplaySub(bootScenario(bc, bb))
 				},
-			}, holderScenario(b), idleScenario("read", b+1), idleScenario("write", b+1), poolScenario(b + 1),
+			}, holderScenario(b), tcpOptionsScenario(b + 1), idleScenario("read", b+1), idleScenario("write", b+1), poolScenario(b + 1),
 				codecScenario("varint+json", func() []netty.Handler {
 					return []netty.Handler{frame.VarintLengthFieldCodec(1 << 16), format.JSONCodec(true, false)}
 				}, func(i int) any { return map[string]interface{}{"id": i} }, b+1),
